@@ -943,7 +943,9 @@ pub fn worker(args: &WorkerArgs, progs: &[Prog], stats: &mut ShardStats) {
     let wants_model = matches!(prop, "C17" | "C18");
     let eligible: Vec<&Prog> = progs.iter().filter(|p| p.model.is_some() == wants_model).collect();
     stats.count("programs", eligible.len() as u64);
-    stats.declare_probe("inconclusive_runs");
+    if matches!(prop, "C02" | "C03" | "C07") {
+        stats.declare_probe("inconclusive_runs");
+    }
     if wants_model {
         stats.declare_fault("late_structure");
         stats.declare_fault("early_structure");
